@@ -28,6 +28,12 @@ CFG = dict(
         "Bridge.C19.createPartitionsRequired_eq", "Bridge.C19.reassignRequired_eq",
         "Bridge.C19.deleteRecordsRequired_eq", "Bridge.C19.deleteGroupsRequired_eq",
         "Bridge.C19.deleteGroupInspect_eq", "Bridge.C19.deleteGroupInspect_eq_inspectItem",
+        "Bridge.C19.retryLoopBody_eq",
+        "Bridge.C19.isNoCtrlTopicError_eq", "Bridge.C19.isNoCtrlKError_eq", "Bridge.C19.isNoCtrlDefault_eq",
+        "Bridge.C19.createTopicClosure_eq", "Bridge.C19.deleteTopicClosure_eq", "Bridge.C19.createPartitionsClosure_eq",
+        "Bridge.C19.closures_controller_error",
+        "Bridge.C19.reassignNotController_eq", "Bridge.C19.reassignTopError_eq",
+        "Bridge.C19.reassignPartitionError_eq", "Bridge.C19.reassignResult_eq",
     ],
     n={"quick": 10000, "thorough": 200000, "search": 4000},
     thorough_seeds=4,
@@ -51,9 +57,12 @@ CFG["manifest"] = dict(
          "carries an error code; DeleteConsumerGroup / ListConsumerGroupOffsets / DescribeLogDirs ask the right broker once and hand its "
          "verdict on. The theorems are proved for the repaired variants of the model; for the defect variants (the tree as first pinned) they hold under the stated "
          "extra hypotheses (Admin.Retry.Max >= 1; not AlterPartitionReassignments) and concrete counter-examples are proved for the "
-         "rest (three of them since repaired in /repo, one still a known finding). Version-selection chains, requiredVersion tables, error constants and the DeleteConsumerGroup tail are "
-         "re-translated from /repo on every run and proved equal to the model; retryOnError, isErrNoController, the retry closures and "
-         "the grouping loops are tied by differential execution of the real ClusterAdmin against scripted in-package MockBrokers "
+         "rest (three of them since repaired in /repo, one still a known finding). Re-translated from /repo on every run and proved "
+         "equal to the model: version-selection chains, requiredVersion tables, error constants, the DeleteConsumerGroup tail, the body of "
+         "retryOnError's loop with its exits, the clauses of isErrNoController's type switch, the complete closures of CreateTopic / "
+         "DeleteTopic / CreatePartitions, and the loop-free tests of the AlterPartitionReassignments closure. The loop condition of "
+         "retryOnError, the range loops of the reassignment closure, the grouping loops and the operations as a whole are tied by "
+         "differential execution of the real ClusterAdmin against scripted in-package MockBrokers "
          "(result + per-broker request log + metadata refresh count vs the compiled model) plus an oracle that evaluates the property "
          "statement itself on result and request log.",
     note="Trusted: Lean kernel; translator tools/extract + GoSem.lean; harness, scripted MockBroker handlers (overlay c19_cluster.go) and line protocol. "
